@@ -24,7 +24,7 @@ func scenario() *vrt.Scenario {
 	var ok bool
 	var finalState string
 	return &vrt.Scenario{Name: "run-endings", Prop: "C10", Cfg: cfg, Setup: coresim.ResetStore,
-		Quick: vrt.Bounds{Dev: 0, Seconds: 100}, Thorough: vrt.Bounds{Dev: 1, Seconds: 600},
+		Quick: vrt.Bounds{Dev: 1, Seconds: 100}, Thorough: vrt.Bounds{Dev: 2, Seconds: 600},
 		DeadlockClause: "request-hangs", PanicClause: "panic", NonTrivial: func(*vrt.Exec) bool { return ok },
 		Body: func() {
 			ok = false
